@@ -181,37 +181,37 @@ type simProp struct {
 }
 
 var simProps = map[string]simProp{
-	"C01": {checkSpec{Prop: "C01", Level: "exploration", NQuick: 400, NThorough: 20000,
+	"C01": {checkSpec{Prop: "C01", Level: "exploration", NQuick: 2000, NThorough: 40000,
 		Rule:   "cases = generated projects (seeded list: soils 1-20 layers, stones, drains, groundwater, 5 ET methods, irrigation, extreme rain, state injection) run through the real day loop; the water-balance oracle is evaluated on every sub-step and day; a case is non-trivial if it ran >30 days and had at least one multi-sub-step day; cases are distinct by construction (distinct generator index)",
 		Floors: []string{"days", "substeps_2", "substeps_3_5", "substeps_6_20", "days_infiltration", "days_evaporation", "days_drain_active", "days_upward_bottom_flux"}},
 		func() []Monitor { return []Monitor{&monC01{}} }},
-	"C02": {checkSpec{Prop: "C02", Level: "exploration", NQuick: 400, NThorough: 20000,
+	"C02": {checkSpec{Prop: "C02", Level: "exploration", NQuick: 2000, NThorough: 40000,
 		Rule:   "cases = generated projects (>=2 layers, leaching depth = profile bottom, fertiliser/irrigation-N/tillage schedules, drains with shallow groundwater, deposition 0-60) run through the real day loop; the N-balance oracle incl. clamp accounting is evaluated on every N sub-step and day; non-trivial = >30 days and a multi-sub-step or upward-flow day observed",
 		Floors: []string{"days", "n_substeps", "conv_down_down", "conv_up_up", "conv_down_up", "conv_up_down", "days_drain_loss", "days_leaching", "days_uptake", "days_denitrification"}},
 		func() []Monitor { return []Monitor{&monC02{}} }},
-	"C06": {checkSpec{Prop: "C06", Level: "exploration", NQuick: 400, NThorough: 20000,
+	"C06": {checkSpec{Prop: "C06", Level: "exploration", NQuick: 2000, NThorough: 40000,
 		Rule:   "cases = generated projects (all groundwater regimes, droughts, extreme rain, injected nearly dry / nearly full profiles); bounds and finiteness of every float of the run state are checked each day, result files scanned for NaN/Inf; non-trivial = >30 days and a layer at the dryness limit or at field capacity observed",
 		Floors: []string{"days", "layerdays_at_dryness_limit", "layerdays_at_field_capacity", "layerdays_below_groundwater", "days_capillary_increment"}},
 		func() []Monitor { return []Monitor{&monC06{}} }},
-	"C07": {checkSpec{Prop: "C07", Level: "exploration", NQuick: 400, NThorough: 20000,
+	"C07": {checkSpec{Prop: "C07", Level: "exploration", NQuick: 2000, NThorough: 40000,
 		Rule:   "cases = generated projects biased to legumes, heavy rain (many sub-steps), tillage 5-60 cm, all fertiliser rows; pool/counter bookkeeping checked around every call of the N routine, once-per-day crediting on every sub-step, plus kernel calls of the real mineralisation routine on captured states with injected temperature/moisture; non-trivial = >30 days with multi-sub-step, tillage or fertiliser day",
 		Floors: []string{"days", "tillage_days", "fertiliser_days", "harvest_days", "kernel_mineralisation_calls", "kernel_frozen_calls"}},
 		func() []Monitor { return []Monitor{&monC07{}} }},
-	"C08": {checkSpec{Prop: "C08", Level: "exploration", NQuick: 400, NThorough: 20000,
+	"C08": {checkSpec{Prop: "C08", Level: "exploration", NQuick: 2000, NThorough: 40000,
 		Rule:   "cases = generated projects over the five ET methods, latitudes -70..80, zero radiation with sunshine hours, frost, all moisture states (injection); ET ordering, caps, root-zone restriction checked every day; non-trivial = >30 days with a transpiring crop",
 		Floors: []string{"days", "days_cropped", "days_bare", "days_transpiration", "days_water_stress", "days_et_method_1", "days_et_method_2", "days_et_method_3", "days_et_method_4", "days_et_method_5"}},
 		func() []Monitor { return []Monitor{&monC08{}} }},
-	"C09": {checkSpec{Prop: "C09", Level: "exploration", NQuick: 390, NThorough: 19500,
+	"C09": {checkSpec{Prop: "C09", Level: "exploration", NQuick: 1950, NThorough: 39000,
 		Rule:   "cases = generated rotations over every shipped annual main-crop parameter set (classic and YAML, varieties) x soils x weather x CO2 methods; crop state checked every day a crop grows, stage order at every harvest, crop result file cross-checked; non-trivial = >30 crop days",
 		Floors: []string{"cropdays", "crop_cycles_completed", "cropdays_water_stress", "cropdays_n_stress"}},
 		func() []Monitor { return []Monitor{&monC09{}} }},
-	"C15": {checkSpec{Prop: "C15", Level: "exploration", NQuick: 600, NThorough: 20000,
+	"C15": {checkSpec{Prop: "C15", Level: "exploration", NQuick: 2400, NThorough: 40000,
 		Rule:   "cases = short runs over textures x density classes x C_org x stones x explicit values x PTF 1-4 x groundwater histories; parameter ordering checked after input and twice a day, parameter vector compared whenever a groundwater level recurs; non-trivial = ran >2 days",
 		Floors: []string{"parameter_checks", "route_table", "route_explicit", "route_ptf", "groundwater_level_recurrences"}},
 		func() []Monitor { return []Monitor{&monC15{}} }},
-	"C20": {checkSpec{Prop: "C20", Level: "exploration", NQuick: 300, NThorough: 6000},
+	"C20": {checkSpec{Prop: "C20", Level: "exploration", NQuick: 1200, NThorough: 24000},
 		func() []Monitor { return []Monitor{&monC20{}} }},
-	"C19": {checkSpec{Prop: "C19", Level: "exploration", NQuick: 400, NThorough: 20000,
+	"C19": {checkSpec{Prop: "C19", Level: "exploration", NQuick: 2000, NThorough: 40000,
 		Rule:   "cases = generated projects over density classes / measured densities, humus, moisture states (injection), cold and hot climates; every layer temperature checked against the running envelope of imposed boundary values each day and the diffusion number of the explicit scheme against 1/2; non-trivial = >30 days and >=2 layers",
 		Floors: []string{"days", "days_frost_surface", "days_hot_surface", "days_radiation_surface_formula"}},
 		func() []Monitor { return []Monitor{&monC19{}} }},
